@@ -264,3 +264,63 @@ def _write_sets():
             rows.append(("writes_nothing_shared:%s" % nm, not bad, "%s:%s %s" % (rel, nm, "; ".join(bad) or "no write to shared objects")))
     rows.append(("functions_scanned", seen >= 60, "%d parse-path functions scanned" % seen))
     return rows
+
+
+@audit("C19_context_created_per_call", props=["C19"])
+def _context_per_call():
+    """`per-call RuntimeContext creation` (utype/parser/func.py, cls.py): the wrappers returned to the user are nested
+    functions of a parser METHOD that runs once, at decoration time.  A RuntimeContext (the result of a
+    `make_context(...)` call, or any variable named `context`) bound in that method's own scope and read by a nested
+    function would be ONE context shared by every later call (errors, depth and options of one call leaking into the
+    next).  Syntactic obligation: no nested function reads, from the scope of the enclosing top-level method, a variable
+    that the method binds to a `make_context` result or calls `context`.  (A context captured from a per-call wrapper by
+    a function nested deeper is per call and is not flagged.)"""
+    from pyvc import REPO
+    rows = []
+    n_wrappers = 0
+    for rel in ("utype/parser/func.py", "utype/parser/cls.py"):
+        tree = _ast.parse(open(_os.path.join(REPO, rel)).read())
+        methods = []
+        for n in tree.body:
+            if isinstance(n, _ast.FunctionDef):
+                methods.append((n.name, n))
+            if isinstance(n, _ast.ClassDef):
+                methods += [(n.name + "." + m.name, m) for m in n.body if isinstance(m, (_ast.FunctionDef, _ast.AsyncFunctionDef))]
+        for qn, m in methods:
+            nested = [x for st in m.body for x in _ast.walk(st) if isinstance(x, (_ast.FunctionDef, _ast.AsyncFunctionDef, _ast.Lambda))]
+            if not nested:
+                continue
+            inner_ids = {id(y) for x in nested for y in _ast.walk(x)}
+            # names the method itself (outside its nested functions) binds to a context
+            own = set(a.arg for a in m.args.args + m.args.kwonlyargs if a.arg == "context")
+            for st in m.body:
+                for x in _ast.walk(st):
+                    if id(x) in inner_ids:
+                        continue
+                    if isinstance(x, _ast.Assign):
+                        is_ctx = any(isinstance(c, _ast.Call) and isinstance(c.func, _ast.Attribute) and c.func.attr == "make_context"
+                                     for c in _ast.walk(x.value)) or (isinstance(x.value, _ast.Call) and _ast.unparse(x.value.func).endswith("RuntimeContext"))
+                        for t in x.targets:
+                            if isinstance(t, _ast.Name) and (is_ctx or t.id == "context"):
+                                own.add(t.id)
+            bad = []
+            for x in nested:
+                n_wrappers += 1
+                if isinstance(x, _ast.Lambda):
+                    params = {a.arg for a in x.args.args + x.args.kwonlyargs}
+                    local = set()
+                else:
+                    params = {a.arg for a in x.args.args + x.args.kwonlyargs + x.args.posonlyargs}
+                    if x.args.vararg:
+                        params.add(x.args.vararg.arg)
+                    if x.args.kwarg:
+                        params.add(x.args.kwarg.arg)
+                    local = {t.id for y in _ast.walk(x) for t in ([y] if isinstance(y, _ast.Name) and isinstance(y.ctx, _ast.Store) else [])}
+                for y in _ast.walk(x):
+                    if isinstance(y, _ast.Name) and isinstance(y.ctx, _ast.Load) and y.id in own and y.id not in params and y.id not in local:
+                        bad.append("line %d: `%s` of %s read inside nested %s" % (y.lineno, y.id, qn, getattr(x, "name", "lambda")))
+            rows.append(("no_context_shared_between_calls:%s" % qn, not bad, "%s:%s %s" % (
+                rel, qn, "; ".join(sorted(set(bad))) or ("binds %s, no nested function reads it" % sorted(own) if own else
+                                                        "binds no context of its own (%d nested functions)" % len(nested)))))
+    rows.append(("wrappers_scanned", n_wrappers >= 10, "%d nested functions scanned" % n_wrappers))
+    return rows
